@@ -10,6 +10,7 @@ import Rare.Proofs.C07NumF64Arith
 import Rare.Proofs.C07AccOpt
 import Rare.Proofs.C07GroupKey
 import Rare.Proofs.C07NumF64Err
+import Rare.Proofs.C07NumF64Acc
 import Rare.Gen.C07
 /-!
 C07 – Aggregators compute the exact fold of their sample history.
@@ -1148,6 +1149,31 @@ theorem num_f64_mean_step_error (keep : Bool) (s : NumF) (x : F64) (hk : 1 ≤ s
   obtain ⟨a, b, c, e⟩ := mean_step_error_full keep s x hk hn hm hx bm bx
   exact ⟨rfl, a, b, c, e⟩
 
+/-- ACCUMULATED ERROR OF THE RUNNING MEAN ("equal to the mean of the full sample list within floating-point tolerance",
+with the tolerance made explicit).  For every non-empty list of at most 2^53 finite samples of magnitude at most `M`
+(any rational `M ≤ 2^1021`): `Mean()` is finite, lies in `[-M, M]`, and differs from the EXACT mean of the sample
+values by at most
+
+    (n + 11)/2 · u · M  +  (n + 3) · η                    (n = Count(), u = 2^-53, η = 2^-1075)
+
+– linear growth in `n` with constant 1/2; e.g. a million samples: `|Mean() − exact| < 5.6·10^-11 · max|x|`.  The list is
+arbitrary, so the bound holds after every prefix of every history.  Proof: `num_f64_mean_step_error` per step; scaled
+by the count the error recurrence becomes additive, `k·m_k − S_k = ((k−1)·m_{k−1} − S_{k−1}) + k·δ_k` with
+`k·|δ_k| ≤ (k+5)·M·u + (2k+2)·η` (`Proofs/C07NumF64Acc.lean`).  Outside the magnitude class the statement fails
+(`-MaxFloat64, MaxFloat64`: the mean is `+Inf`, see the example below). -/
+theorem num_f64_mean_error (keep : Bool) (M : Rat) (hM : M ≤ ((2 ^ 1021 : Nat) : Rat)) (l : List F64) (hne : l ≠ [])
+    (hn : l.length ≤ 9007199254740992)
+    (hl : ∀ x ∈ l, x.isFinite = true ∧ -M ≤ x.toRat ∧ x.toRat ≤ M) :
+    let r := runFv keep l
+    let n : Rat := (l.length : Rat)
+    let R := (n + 11) / 2 * (M * uF) + (n + 3) * F64.etaF
+    r.samples = l.length ∧ r.mean.isFinite = true ∧ -M ≤ r.mean.toRat ∧ r.mean.toRat ≤ M ∧
+    r.mean.toRat - mean (l.map F64.toRat) ≤ R ∧ mean (l.map F64.toRat) - r.mean.toRat ≤ R := by
+  intro r n R
+  rw [← bigB_eq] at hM
+  exact ⟨runFv_samples keep l, mean_acc_error keep M hM l hne hn hl⟩
+
+
 /-! ### non-vacuity of the float theorems -/
 
 /-- "1.5", "x", "-2", "1e999" (range error), "0x1p-1", "nan". -/
@@ -1182,6 +1208,11 @@ example : IsSortedF false [F64.nan, F64.zero true, F64.zero false, F64.ofInt 1] 
 /-- all samples `+Inf`: `Min()` is `+Inf` (was `MaxFloat64` before bda1842); the overflow witness is real -/
 example : (runFv false [F64.inf false, F64.inf false]).min = F64.inf false := by decide +kernel
 example : (runFv false [F64.neg maxF64, maxF64]).mean = F64.inf false := by decide +kernel
+/-- hypotheses of `num_f64_mean_error` on 0.1, 0.2, 0.3 (M = 1): the mean IS rounded, and the bound holds with room. -/
+example : ∀ x ∈ [F64.ofRat (1/10), F64.ofRat (2/10), F64.ofRat (3/10)],
+    x.isFinite = true ∧ -(1 : Rat) ≤ x.toRat ∧ x.toRat ≤ 1 := by decide +kernel
+example : (runFv false [F64.ofRat (1/10), F64.ofRat (2/10), F64.ofRat (3/10)]).mean.toRat ≠
+    mean ([F64.ofRat (1/10), F64.ofRat (2/10), F64.ofRat (3/10)].map F64.toRat) := by decide +kernel
 
 /-! ## `rare reduce` with the static optimiser on (C07 × C10)
 
